@@ -339,3 +339,65 @@ def stable_slot(ctx):
         ctx.check(o_ok, rid, G + "put#slot-store-release", "the slot is written with at least release order",
                   "put() can store the item with relaxed order: the store is not ordered after the capacity publication of a preceding grow(), so the re-validation in get() "
                   "cannot detect that the slot was re-used", fn.where(st[0]), fn=fn)
+
+
+def index_width(ctx):
+    """_bottom / _top are never reset: they count every push / steal of the deque's lifetime"""
+    rid = "WSD.index-width"
+    ctx.rule(rid, "chase_work_stealing_deque::_bottom and ::_top (monotone counters of all pushes / steals, compared by subtraction) are 64-bit words in every "
+                  "instantiated layout: a 32-bit index wraps after 2^32 steals (minutes of traffic), after which try_pop sees bottom < top and drops the content")
+    n = 0
+    for r in ctx.facts.records:
+        if r.get("pat") != D[:-2]:
+            continue
+        for fld in r.get("fields", []):
+            if fld["name"] in ("_bottom", "_top"):
+                n += 1
+                ctx.check(fld.get("size", 0) >= 8, rid, D + fld["name"] + "[size=%s]" % fld.get("size"), "%s is %d bytes wide" % (fld["name"], fld.get("size", 0)),
+                          "%s is only %s bytes wide (%s): the index is never reset, so it wraps after 2^%d pushes/steals; from then on bottom < top, try_pop "
+                          "returns false and resets bottom to top (the content is dropped), try_steal computes a negative size, grow() copies nothing" % (
+                              fld["name"], fld.get("size"), fld.get("t"), 8 * fld.get("size", 0)), "%s:%s" % (r.get("file", ""), r.get("line", "")))
+    if n < 2:
+        ctx.broken.append("WSD.index-width: layout of chase_work_stealing_deque (_bottom/_top) not found")
+
+
+def grow_exception_safety(ctx):
+    rid = "WSD.grow-exception-safe"
+    ctx.rule(rid, "growing_circular_array::grow: the allocation of the new bucket (the only operation that can throw) is performed before any of the "
+                  "array's own bookkeeping members (_buckets, _capacity) is modified: otherwise a bad_alloc leaves the bucket count ahead of the table and "
+                  "the next growth stores its bucket one slot too far (null bucket dereferenced by the next push)")
+    for fn in flow._shapes(ctx, G + "grow"):
+        news = [e for b, i, e, n_ in fn.events() if n_["k"] == "new"]
+        if not news:
+            ctx.broken.append("growing_circular_array::grow: no allocation found")
+            continue
+        writes = []
+        for b, i, e, n_ in fn.events():
+            k = fn.kids(e)
+            tgt = None
+            if n_["k"] == "un" and n_.get("op") in ("++", "--") and k:
+                tgt = k[0]
+            elif n_["k"] == "bin" and n_.get("op", "").endswith("=") and n_["op"] not in ("==", "!=", "<=", ">=") and k:
+                tgt = k[0]
+            elif n_["k"] == "call" and fn.atomic(e) and fn.atomic(e)["kind"] in ("store", "rmw", "cas"):
+                if fn.atomic(e)["field"].split("::")[-1] in ("_capacity", "_buckets"):
+                    writes.append(e)
+                continue
+            if tgt is not None:
+                tn = fn.nodes[tgt]
+                if tn["k"] == "member" and tn.get("leaf") in ("_buckets", "_capacity") and fn.kids(tgt) and fn.nodes[fn.kids(tgt)[0]]["k"] == "this":
+                    writes.append(e)
+        if not writes:
+            ctx.broken.append("growing_circular_array::grow: no bookkeeping write found")
+            continue
+        for w in writes:
+            early = [nw for nw in news if fn.event_reaches(w, nw) or (w in fn.subtree(nw))]
+            # a write that is a sub-expression of the statement which allocates (e.g. _data[_buckets++] = new ...) is also early: the increment is
+            # sequenced before the allocation throws
+            pos = fn.pos()
+            for nw in news:
+                if pos.get(w) and pos.get(nw) and pos[w][0] == pos[nw][0] and pos[w][1] < pos[nw][1] and nw not in early:
+                    early.append(nw)
+            ctx.check(not early, rid, G + "grow#%s|after-allocation" % fn.expr(w)[:30], "bookkeeping write happens after the allocation",
+                      "%s is executed before the allocation of the new bucket (line %d): if the allocation throws, the array keeps a bucket count that is ahead "
+                      "of its table" % (fn.expr(w)[:40], fn.nodes[early[0]].get("l", 0) if early else 0), fn.where(w), fn=fn)
